@@ -193,6 +193,28 @@ def run(fx, chk, tier):
         sw = []
         for f2 in tail_delegates(fx, fn):
             sw += [(body_of(f2),) + x for x in opt_field_switches(body_of(f2), field)]
+        if not sw:
+            # `stbl.<field>.as_ref().map_or(<default>, |t| ..)` / `.is_none_or(|t| ..)`: the absent-table answer is the
+            # default operand
+            done = False
+            for f2 in tail_delegates(fx, fn):
+                b2 = body_of(f2)
+                for blk, t in b2.calls():
+                    tail = (t["callee"].get("path") or "").split("::")[-1]
+                    if tail not in ("map_or", "is_none_or") or "Option" not in (t["callee"].get("path") or "") or not t["args"]:
+                        continue
+                    rc = b2.canon_op(t["args"][0])
+                    if not rc.rstrip(")").endswith("." + field):
+                        continue
+                    dflt = op_const(t["args"][1]) if tail == "map_or" and len(t["args"]) > 1 else (1 if tail == "is_none_or" else None)
+                    returned = t["dest"]["l"] == 0 or any(s_["k"] == "assign" and s_["place"]["l"] == 0 and not s_["place"]["p"] and s_["rv"]["k"] == "use" and (op_place(s_["rv"]["a"]) or {}).get("l") == t["dest"]["l"]
+                                                         for bb in b2.reach for s_ in b2.stmts(bb))
+                    if returned:
+                        done = True
+                        chk.require(dflt == want, "R-DEFAULT", "%s|%s-absent" % (fn["name"], field), "result is the constant %s (default of %s)" % (want, tail),
+                                    "with no %s table %s reports %s instead of %s" % (field, fn["name"], dflt, label), site_of(fn))
+            if done:
+                continue
         if not chk.anchor("R-DEFAULT", "test of stbl.%s in %s" % (field, fn["name"]), sw):
             continue
         for (body, b, none_t, some_t) in sw:
@@ -206,6 +228,28 @@ def run(fx, chk, tier):
             chk.require(bool(only_none) and not bad, "R-DEFAULT", "%s|%s-absent" % (fn["name"], field), "result is the constant %s" % want,
                         "with no %s table %s reports %s instead of %s" % (field, fn["name"], [x[1] for x in bad] or "nothing", label), site_of(fn))
 
+    # ---------------- R-SYNC: with a sync table, a sample is sync exactly when it is listed
+    chk.rule("R-SYNC", "with an stss table present the sync flag is the membership test alone: the search of stss.entries is not combined with any other condition (an empty table lists no sample)")
+    nsync = 0
+    for f2 in tail_delegates(fx, fsy):
+        root2 = hirq.body_root(f2)
+        if root2 is None:
+            continue
+        for n2, ps2 in hirq.walk(root2):
+            if n2.get("k") != "mcall" or n2.get("m") not in ("binary_search", "contains", "binary_search_by", "binary_search_by_key"):
+                continue
+            nsync += 1
+            combined = None
+            for anc in reversed(ps2):
+                k2 = anc.get("k")
+                if k2 == "bin" and anc.get("op") in ("Or", "And", "BitOr", "BitAnd"):
+                    combined = anc
+                    break
+                if k2 in ("closure", "if", "match", "block", "let", "ret"):
+                    break
+            chk.require(combined is None, "R-SYNC", "%s|%s" % (f2["name"], n2.get("m")), "the membership test is the whole answer on the path with a table",
+                        "the search of the sync table is combined with another condition (%s): a sample that is not listed can be reported as sync (or a listed one as not)" % (hirq.expr_str(combined)[:90] if combined else ""), site_of(f2, n2.get("line")))
+    chk.floor("R-SYNC", "searches of the sync table", nsync, 1)
     # ---------------- R-COUNT: the trafs-empty edge returns stsz.sample_count
     body = body_of(fcn)
     ras = result_assignments(body, body.reach)
